@@ -126,6 +126,8 @@ def check(ctx):
                       "empty arrays are legitimate stored values", 6)
     ctx.rule("R14.9", "Solution.to_hdf5: whenever the solution object is written into a file other than its own output file, that "
                       "file was first replaced by a copy of the output file (on every path) or the data is written explicitly", 2)
+    ctx.rule("R14.11", "readers hand stored values to the constructors without narrowing them: no float()/int()/round() or computed type cast in a "
+                       "from_hdf5 function beyond the confirmed ones (float(complex) and int(float) drop information)", 1)
     ctx.rule("R14.8", "equality of sequences of sub-objects compares lengths (no silent truncation by zip)", 2)
     ctx.rule("R14.2", "options: None values are dropped on save, so every Optional field must default to None "
                       "(or the reader must restore None)", 1)
@@ -217,6 +219,7 @@ def check(ctx):
     stored_value_defaulting(ctx)
     equality_truncation(ctx)
     export_carries_data(ctx)
+    reader_casts(ctx)
     options_none(ctx)
     mesh_restorable(ctx)
     getstate_slots(ctx)
@@ -511,3 +514,38 @@ def export_carries_data(ctx):
                consequence="exporting a second solution onto a path that holds an earlier export keeps the first run's frames and dynamics: "
                            "the loaded solution differs from the one saved, silently",
                witness={"path": cfg.describe_path(wit)[-8:] if wit else None})
+
+
+# ---------------------------------------------------------------------------
+# R14.11 no lossy conversion on the way back
+# ---------------------------------------------------------------------------
+CASTS_OK = {
+    ("tdgl.solution.data:TDGLData.from_hdf5.get", "int(step)"): "the step index is part of the group name (written as str(step))",
+}
+
+
+def reader_casts(ctx):
+    repo = ctx.repo
+    n = 0
+    for f in repo.all_functions():
+        if f.module.name.startswith("tdgl.test") or not any(k in f.qual for k in ("from_hdf5", "load_state_data", "deserialize")):
+            continue
+        n += 1
+        for c in own_nodes(f.node):
+            if not isinstance(c, ast.Call):
+                continue
+            fn_ = c.func
+            # narrowing conversions only: bool(flag), str(name) and complex(x) keep every legal value of a field
+            builtin = isinstance(fn_, ast.Name) and fn_.id in ("float", "int", "round")
+            computed = isinstance(fn_, ast.Subscript) or (isinstance(fn_, ast.Attribute) and fn_.attr in ("type", "__class__"))
+            if not (builtin or computed) or not c.args:
+                continue
+            key = (f.fq, norm(c))
+            ok = key in CASTS_OK
+            ctx.ob("R14.11", f"{f.qual}: `{norm(c)[:60]}` ({CASTS_OK.get(key, 'NOT in the confirmed table')[:50]})", ok, where=f.fq,
+                   construct=f"cast `{norm(c)[:50]}` in reader {f.qual}", loc=loc(f, c),
+                   message=f"{f.qual} converts a stored value with `{norm(c)[:70]}` before handing it to the constructor",
+                   consequence="values that are legal for the field but not for the cast come back different: a complex terminal_psi loses its "
+                               "imaginary part through float(), so loaded.options != solution.options")
+    if n < 8:
+        raise AnalysisError(f"only {n} reader functions found")
